@@ -34,6 +34,8 @@ def __i{name}__(self, other):
         if len(other_rows) == 1:
             other = other_rows[0]
             for i in rows: i._i{name}_sparse(other)
+        elif len(other_rows) != len(rows):
+            raise ValueError('shape mismatch between arrays')
         else:
             for i, j in zip(rows, other_rows): i._i{name}_sparse(j)
     elif other.__class__ in SparseVectorSet:
@@ -53,7 +55,10 @@ def __i{name}__(self, other):
             for i in self.rows: i._i{name}_array(other) 
         elif ndim == 2:
             rows = self.rows
-            for i, j in zip(rows, other): i._i{name}_array(j)
+            if len(other) != len(rows): raise ValueError('shape mismatch between arrays')
+            for i, j in zip(rows, other): 
+                if len(j) == 1: i._i{name}_scalar(j[0])
+                else: i._i{name}_array(j)
         else:
             raise ValueError('shape mismatch between arrays')
     return self
@@ -80,6 +85,8 @@ def __{name}__(self, other):
             new = SparseArray.from_rows(
                 [i._{name}_sparse(other) for i in rows]
             )
+        elif len(rows) != len(other_rows):
+            raise ValueError('shape mismatch between arrays')
         else:
             new = SparseArray.from_rows(
                 [i._{name}_sparse(j) for i, j in zip(rows, other_rows)]
@@ -106,8 +113,11 @@ def __{name}__(self, other):
                 i._{name}_array(other) for i in rows
             ])
         elif ndim == 2:
+            if len(rows) == 1: rows = rows * len(other)
+            elif len(rows) != len(other): raise ValueError('shape mismatch between arrays')
             new = SparseArray.from_rows(
-                [i._{name}_array(j) for i, j in zip(rows, other)]
+                [i._{name}_scalar(j[0]) if len(j) == 1 else i._{name}_array(j)
+                 for i, j in zip(rows, other)]
             )
         else:
             new = self.to_array().__{name}__(other)
@@ -131,8 +141,6 @@ def __i{name}__(self, other):
             self._i{name}_scalar(other)
         elif ndim == 1:
             self._i{name}_array(other)
-        elif ndim == 2:
-            for i in other: self._i{name}_array(other)
         else:
             raise ValueError('shape mismatch between arrays')
     return self
@@ -169,7 +177,8 @@ def __{name}__(self, other):
             new = self._{name}_array(other)
         elif ndim == 2:
             new = SparseArray.from_rows([
-                self._{name}_array(i) for i in other
+                self._{name}_scalar(i[0]) if len(i) == 1 else self._{name}_array(i)
+                for i in other
             ])
         else:
             new = self.to_array().__{name}__(other)
